@@ -9,6 +9,14 @@
 (*             ToOld on the raw input                                      *)
 (*   func    : Encode (PythonTask / pythontask), Decode (get_func_attr),   *)
 (*             Call                                                        *)
+(*   tdseq   : ONE TaskDescription object: Create, then per step of the    *)
+(*             TLC sequence Set (setattr / item / update() / in-place      *)
+(*             mutation) or Verify (verify() or rp.Task(...)); every       *)
+(*             Verify is judged on the content the object holds at that    *)
+(*             moment - exactly like the verify of a fresh description     *)
+(*   xfunc   : Encode in a real __main__ script, Call "local" (decoded in  *)
+(*             the encoding process) and Call "remote" (decoded and called *)
+(*             in a fresh interpreter)                                     *)
 (*   fseq    : EncodeSeq (several short-lived callables encoded one after  *)
 (*             the other, each dropped before the next is made), DecodeSeq,*)
 (*             CallSeq                                                     *)
@@ -36,9 +44,11 @@ Ev == Tr.events
 
 E(cond, name) == IF cond THEN {} ELSE {name}
 C19(s) == {x \in s : x \in {"C19.ModeRulesNotEnforced", "C19.ModeRulesFalseReject", "C19.Idempotent",
-                            "C19.AliasKeeps", "C19.LosesNothing", "C19.DictRoundTrip"}}
+                            "C19.AliasKeeps", "C19.LosesNothing", "C19.DictRoundTrip",
+                            "C19.TypesCast"}}
 
 Input == CASE Tr.kind = "td" -> FromDict(Tr.inp)
+           [] Tr.kind = "tdseq" -> FromDict(Tr.inp.base)
            [] Tr.kind = "pd" -> PDFromDict(Tr.inp)
            [] OTHER          -> Tr.inp
 
@@ -54,6 +64,17 @@ TDVerifyErrs(d, e) ==
                     ELSE {"C19.AliasKeeps", "I.alias." \o Alias[i].dep} : i \in 1 .. NAlias}
       los == UNION {IF o[a] = d[a] THEN {} ELSE {"C19.LosesNothing", "I.lost." \o a}
                     : a \in Attrs \ Touched(d)}
+      \* every value has its schema type afterwards
+      cst == E(o.loose = 0, "C19.TypesCast")
+      \* a sequence on one object: what preceded this call
+      seq == IF Tr.kind # "tdseq" THEN {}
+             ELSE {"K.tdseq.via." \o e.via}
+                  \cup (IF e.prior = "verified" /\ e.after # "none"
+                        THEN {"K.tdseq.reverify." \o e.after \o (IF rej THEN ".reject" ELSE ".accept")}
+                             \cup (IF \E i \in 1 .. NAlias : T(d, Alias[i].dep)
+                                   THEN {"K.tdseq.reverify.alias"} ELSE {})
+                             \cup (IF d.loose # 0 THEN {"K.tdseq.reverify.cast"} ELSE {})
+                        ELSE {})
       ide == IF vok # "ok" THEN {}
              ELSE E(e.res = "ok" /\ o = d, "C19.Idempotent")
                   \cup {"I.changed." \o a : a \in {b \in Attrs : o[b] # d[b]}}
@@ -63,15 +84,18 @@ TDVerifyErrs(d, e) ==
              \cup (IF d.use_mpi = "none" THEN {"K.td.mpi." \o Verify(d).use_mpi} ELSE {})
              \cup (IF vok = "ok" THEN {"K.td.again"} ELSE {})
              \cup (IF d.extra # 0 THEN {"K.td.extra"} ELSE {})
+      \* which call of a sequence failed: what preceded it
+      ctx(c) == IF Tr.kind = "tdseq" /\ C19(c) # {}
+                THEN {"I.seq.after." \o e.after \o "." \o e.prior} ELSE {}
       \* the case class is that of the input, not of what the code did with it
       cls == IF rej THEN {"K.td.reject." \o EffMode(d) \o "." \o Complaint(d)}
                     ELSE cov \cup {"K.td.accept." \o EffMode(d)}
   IN IF e.res = "raise"
      THEN LET c == E(rej, "C19.ModeRulesFalseReject") \cup ide
-          IN  c \cup cls
+          IN  c \cup cls \cup seq \cup ctx(c)
                 \cup (IF C19(c) = {} THEN E(o = VerifyRej(d), "T19.RejectedState") ELSE {})
-     ELSE LET c == E(~rej, "C19.ModeRulesNotEnforced") \cup ali \cup los \cup ide
-          IN  c \cup cls
+     ELSE LET c == E(~rej, "C19.ModeRulesNotEnforced") \cup ali \cup los \cup ide \cup cst
+          IN  c \cup cls \cup seq \cup ctx(c)
                 \cup (IF C19(c) = {} THEN E(o = Verify(d), "T19.VerifyDiffers") ELSE {})
 
 TDStep(e) ==
@@ -90,6 +114,13 @@ TDStep(e) ==
          /\ cur' = Apply(cur, e.out)
          /\ errs' = errs \cup TDVerifyErrs(cur, e)
          /\ vok' = e.res
+    [] e.ev = "Set" ->
+         \* the application changed the object: the content is what it holds now,
+         \* and nothing is known to be verified any more
+         /\ cur' = Apply(cur, e.out)
+         /\ errs' = errs \cup {"K.tdseq.set." \o e.how}
+              \cup E(e.how = OpHow(e.op) /\ cur' = Apply(cur, OpSet(e.op)), "T19.SetDiffers")
+         /\ vok' = "none"
     [] OTHER ->
          /\ errs' = errs \cup {"X.UnknownEvent"} /\ UNCHANGED <<cur, vok>>
 
@@ -192,6 +223,21 @@ FuncStep(e) ==
                     \cup E(e.dispatch = e.direct, "C19.FuncDispatchSameResult")
        [] OTHER -> errs' = errs \cup {"X.UnknownEvent"}
 
+XFuncStep(e) ==
+  /\ UNCHANGED <<cur, orig, vok>>
+  /\ CASE e.ev = "Encode" ->
+            errs' = errs \cup {"K.xfunc." \o cur.f \o "." \o cur.w, "K.xfunc.a." \o cur.a}
+                    \cup E(e.res = "ok" /\ e.isstr, "C19.FuncEncodes")
+       [] e.ev = "Call" ->
+            \* the model: XDecode(XEncode(c), at) = XOracle(c) for either interpreter
+            errs' = errs \cup {"K.xfunc.at." \o e.at}
+                    \cup (IF e.at = "remote"
+                          THEN E(e.decodes, "C19.FuncRemoteDecodes")
+                               \cup E(e.decoded = e.direct, "C19.FuncRemoteSameResult")
+                          ELSE E(e.decodes, "C19.FuncDecodes")
+                               \cup E(e.decoded = e.direct, "C19.FuncSameResult"))
+       [] OTHER -> errs' = errs \cup {"X.UnknownEvent"}
+
 FSeqStep(e) ==
   /\ UNCHANGED <<cur, orig, vok>>
   /\ CASE e.ev = "EncodeSeq" ->
@@ -219,6 +265,8 @@ Step ==
        [] Tr.kind = "slots" -> SlotStep(e) /\ UNCHANGED vok
        [] Tr.kind = "func"  -> FuncStep(e)
        [] Tr.kind = "fseq"  -> FSeqStep(e)
+       [] Tr.kind = "xfunc" -> XFuncStep(e)
+       [] Tr.kind = "tdseq" -> TDStep(e) /\ UNCHANGED orig
        [] OTHER -> errs' = errs \cup {"X.UnknownKind"} /\ UNCHANGED <<cur, orig, vok>>
 
 Finish ==
